@@ -16,6 +16,8 @@ import (
 	"io"
 	"net"
 	"os"
+	"reflect"
+	"sort"
 	"strings"
 	"testing"
 	"testing/synctest"
@@ -58,8 +60,35 @@ type recStorage struct {
 }
 
 func (s *recStorage) Put(_ context.Context, tag string, rec InstrumentationRecord) error {
-	s.r.ev("rec %d %x %d", s.ep, tag, rec.Size)
+	s.r.ev("rec %d %x %d %s", s.ep, tag, rec.Size, actorOr(verifSelf()))
 	return nil
+}
+
+func actorOr(n string) string {
+	if n == "" {
+		return "-"
+	}
+	return strings.ReplaceAll(n, " ", "")
+}
+
+// tagsCode: 0 for "no tags"; otherwise a checksum of the canonical text of the tag set (keys sorted, values
+// through nonceOf, i.e. up to msgpack's normalisation of integer types)
+func tagsCode(tags CtxRPCTags, ok bool) int {
+	if !ok {
+		return 0
+	}
+	var ks []string
+	for k := range tags {
+		ks = append(ks, k)
+	}
+	sort.Strings(ks)
+	h := uint32(2166136261)
+	for _, k := range ks {
+		for _, b := range []byte(k + "=" + nonceOf(tags[k]) + ",") {
+			h = (h ^ uint32(b)) * 16777619
+		}
+	}
+	return 1 + int(h%1000000)
 }
 
 // payloadNonce: the nonce inside a compressed argument / result (the monitors
@@ -120,6 +149,10 @@ type session struct {
 	holds int
 	extra int          // extra bytes a handler adds to its result (reply larger than the request)
 	frames [2][][]byte // frames written by each endpoint, in order
+	shared bool         // every caller's context derives from ONE tagged parent context
+	nwr    [2]int       // Write calls seen per endpoint
+	wfail  [2]int       // index of the Write call that fails on each endpoint (-1: none); the connection stays up
+	done   map[int]bool // callers that have returned
 }
 
 func outcomeOf(err error) string {
@@ -180,6 +213,13 @@ func (s *session) newEndpoint(id int, c *simConn) *endpoint {
 	e := &endpoint{id: id, conn: c}
 	c.onWrite = func(p []byte) error {
 		verifPoint("conn.Write")
+		k := s.nwr[id]
+		s.nwr[id]++
+		if k == s.wfail[id] {
+			// this Write fails, nothing reaches the wire, the connection stays up
+			s.r.ev("wrf %d %x %s", id, p, payloadNonce(p))
+			return errors.New("sim: write failed")
+		}
 		s.r.ev("wr %d %x %s", id, p, payloadNonce(p))
 		s.frames[id] = append(s.frames[id], append([]byte(nil), p...))
 		return nil
@@ -197,11 +237,7 @@ func (s *session) newEndpoint(id int, c *simConn) *endpoint {
 		return ServeHandlerDescription{MakeArg: mk, Handler: func(ctx context.Context, arg interface{}) (interface{}, error) {
 			h := e.nh
 			e.nh++
-			_, tagged := TagsFromContext(ctx)
-			tg := 0
-			if tagged {
-				tg = 1
-			}
+			tg := tagsCode(TagsFromContext(ctx))
 			s.r.ev("iv %d %d %s %s %d", id, h, method, nonceOf(arg), tg)
 			s.hctx[fmt.Sprintf("%d/%d", id, h)] = ctx
 			res, err := body(ctx, h, arg)
@@ -294,7 +330,7 @@ func (s *session) lateHandler(id int) ServeHandlerDescription {
 		Handler: func(ctx context.Context, arg interface{}) (interface{}, error) {
 			h := e.nh
 			e.nh++
-			s.r.ev("iv %d %d %s %s %d", id, h, "lecho", nonceOf(arg), 0)
+			s.r.ev("iv %d %d %s %s %d", id, h, "lecho", nonceOf(arg), tagsCode(TagsFromContext(ctx)))
 			var res interface{}
 			if p, ok := arg.(*interface{}); ok && p != nil {
 				if n, ok := (*p).(int64); ok {
@@ -350,13 +386,16 @@ func (s *session) runOp(op sessOp, ctx context.Context) {
 	if op.badarg {
 		arg = unencodable{}
 	}
+	// what the caller supplies: the tags of the shared parent (if any) plus its own
+	want := CtxRPCTags{}
+	if s.shared {
+		want["s"] = int64(7)
+	}
 	if op.tagged {
 		ctx = AddRPCTagsToContext(ctx, CtxRPCTags{"t": op.nonce})
+		want["t"] = op.nonce
 	}
-	tg := 0
-	if op.tagged {
-		tg = 1
-	}
+	tg := tagsCode(want, len(want) > 0)
 	if op.badarg {
 		s.r.ev("badarg %d", op.caller)
 	}
@@ -373,6 +412,7 @@ func (s *session) runOp(op sessOp, ctx context.Context) {
 	}
 	atReturn := vtext(*res)
 	s.r.ev("ce %d %s %s", op.caller, outcomeOf(err), nonceOf(res))
+	s.done[op.caller] = true
 	c := op.caller
 	s.late = append(s.late, func() {
 		if now := vtext(*res); now != atReturn {
@@ -394,10 +434,16 @@ type sessPlan struct {
 	forceAt int      // step at which the fault actor is released at the latest (-1: scheduler's choice)
 	wireCap int      // capacity of each direction of the simulated connection (0: unbounded)
 	stallRx int      // endpoint whose receive loop is held back for the first virtual seconds (-1: none)
+	shared  bool     // callers derive their contexts from one tagged parent
+	wfail   [2]int   // Write call that fails per endpoint (-1: none)
+	lazyFin bool     // callers about to finish their records run only when nothing else can (a reply that arrives
+	                 // while a cancelled call is still winding up is then received before its record is finished)
 }
 
 func genPlan(g *prng, flavour string) sessPlan {
-	p := sessPlan{max: 1 << 20, faultAt: -1, forceAt: -1, observe: true, stallRx: -1}
+	p := sessPlan{max: 1 << 20, faultAt: -1, forceAt: -1, observe: true, stallRx: -1, wfail: [2]int{-1, -1}}
+	p.shared = g.chance(1, 3)
+	p.lazyFin = g.chance(1, 4)
 	n := 1 + g.intn(4)
 	methods := []string{"echo", "echo", "hold", "wait", "fail"}
 	for i := 0; i < n; i++ {
@@ -474,7 +520,7 @@ func genPlan(g *prng, flavour string) sessPlan {
 	case "hostile":
 		for k := 0; k < 1+g.intn(4); k++ {
 			p.inject = append(p.inject, fmt.Sprintf("%s@%d",
-				[]string{"dupresp", "strayresp", "straycancel", "nfcall", "nfnotify", "dupresp"}[g.intn(6)], g.intn(2)))
+				[]string{"dupresp", "strayresp", "straycancel", "nfcall", "nfnotify", "dupresp", "nflate"}[g.intn(7)], g.intn(2)))
 		}
 		if g.chance(1, 4) {
 			// a fatal frame racing a local Close of the same endpoint: Err() must settle on ONE value
@@ -483,9 +529,32 @@ func genPlan(g *prng, flavour string) sessPlan {
 			p.closer = fmt.Sprintf("ext%d", ep)
 			p.closers = 1
 		}
+		for k, spec := range p.inject {
+			if strings.HasPrefix(spec, "nflate@") {
+				p.inject[k] = fmt.Sprintf("nflate@%d", len(p.inject)%2)
+			}
+		}
 		if g.chance(1, 2) {
 			// a call to a protocol that is being registered at that very time
 			p.ops = append(p.ops, sessOp{caller: len(p.ops), ep: 1 - (len(p.inject) % 2), kind: "call", method: "lecho", nonce: 950})
+		}
+	case "wfail":
+		// one Write fails on a connection that stays up; notifications and quick calls follow on the same endpoint
+		ep := g.intn(2)
+		p.ops = nil
+		nb := 3 + g.intn(3)
+		for i := 0; i < nb; i++ {
+			op := sessOp{caller: i, ep: ep, nonce: int64(100 + i*7 + g.intn(5))}
+			op.kind = []string{"notify", "notify", "call"}[g.intn(3)]
+			op.method = "echo"
+			if op.kind == "call" {
+				op.timeout = 2 * time.Second // its reply may be the lost frame
+			}
+			p.ops = append(p.ops, op)
+		}
+		p.wfail[ep] = g.intn(3)
+		if g.chance(1, 2) {
+			p.inject = []string{fmt.Sprintf("nfcall@%d", ep)}
 		}
 	case "limit":
 		if g.chance(1, 2) {
@@ -510,7 +579,8 @@ func runSession(g *prng, p sessPlan, script []string) (hist []string, trace []st
 	r := newSchedRun(g)
 	r.script = script
 	// when the receive loop looks a reply's call up / decodes into the caller's result (white-box markers for C12)
-	r.markSites = map[string]string{"call:RetrieveCall": "lk", "call:DecodeRes": "dr"}
+	// lr: the table read itself (under the lock), after which the size of the reply is added before the loop yields again
+	r.markSites = map[string]string{"call:RetrieveCall": "lk", "call:DecodeRes": "dr", "callContainer.RetrieveCall#2.stmt": "lr"}
 	if p.forceAt >= 0 {
 		r.forceStep = p.forceAt
 		r.forceWho = []string{"@closer0", "@cutter"}
@@ -518,7 +588,12 @@ func runSession(g *prng, p sessPlan, script []string) (hist []string, trace []st
 	if p.pct {
 		r.pct = map[string]int{}
 	}
-	s := &session{r: r, max: p.max, hctx: map[string]context.Context{}, extra: p.extra}
+	if p.lazyFin {
+		r.lazySites = map[string]bool{"dispatch.Call#2.call:RecordAndFinish": true,
+			"dispatch.handleCancel#0.call:RecordAndFinish": true}
+	}
+	s := &session{r: r, max: p.max, hctx: map[string]context.Context{}, extra: p.extra, shared: p.shared,
+		wfail: p.wfail, done: map[int]bool{}}
 	baseline := libGoroutines()
 	a, b := newSimPair(p.wireCap)
 	if p.stallRx >= 0 {
@@ -542,9 +617,13 @@ func runSession(g *prng, p sessPlan, script []string) (hist []string, trace []st
 		r.finish()
 		return r.hist, r.trace, r.steps
 	}
+	parent := context.Background()
+	if p.shared {
+		parent = AddRPCTagsToContext(parent, CtxRPCTags{"s": int64(7)})
+	}
 	for _, op := range p.ops {
 		op := op
-		ctx, cancel := context.WithCancel(context.Background())
+		ctx, cancel := context.WithCancel(parent)
 		r.spawn(fmt.Sprintf("c%d", op.caller), func() { s.runOp(op, ctx); cancel() })
 		if op.cancel {
 			r.spawn(fmt.Sprintf("x%d", op.caller), func() {
@@ -630,6 +709,14 @@ func runSession(g *prng, p sessPlan, script []string) (hist []string, trace []st
 					enc.intv(&body, int64(7000+k))
 					enc.str(&body, []byte("p.nope"))
 					enc.value(&body, int64(1))
+				case "nflate":
+					// a call to the protocol that is being registered at that time, under the very name the
+					// scenario's own caller uses afterwards (the nonce range 7000.. is the scripted peer's)
+					body.WriteByte(0x94)
+					enc.intv(&body, 0)
+					enc.intv(&body, int64(7100+k))
+					enc.str(&body, []byte("late.lecho"))
+					enc.value(&body, int64(7700+k))
 				case "nfnotify":
 					body.WriteByte(0x93)
 					enc.intv(&body, 2)
@@ -680,6 +767,59 @@ func runSession(g *prng, p sessPlan, script []string) (hist []string, trace []st
 			r.advance(time.Second)
 		}
 	}
+	// replies that arrive after their calls have returned: every seqno an endpoint has issued so far, once all of
+	// its callers are back (hostile / damaged peer; the calls must be gone from the table, C11/C12)
+	if len(s.done) == len(p.ops) && s.ep[0] != nil && s.ep[1] != nil {
+		// what was written late BEFORE this phase is reported as such
+		for k, f := range s.late {
+			before := len(r.hist)
+			f()
+			if len(r.hist) > before {
+				s.late[k] = func() {}
+			}
+		}
+		r.spawn("oldresp", func() {
+			enc := &altEnc{}
+			for e := 0; e < 2; e++ {
+				n := int(reflect.ValueOf(&s.ep[e].xp.calls.seqid).Elem().Int())
+				if n == 0 || n > 16 {
+					continue
+				}
+				r.ev("inj %d oldresp", e)
+				for q := 0; q < n; q++ {
+					var body, fr bytes.Buffer
+					body.WriteByte(0x94)
+					enc.intv(&body, 1)
+					enc.intv(&body, int64(q))
+					enc.value(&body, nil)
+					// a reply is decoded according to the compression type of the call it finds: make it well-formed
+					// for whatever is (wrongly) still registered under this seqno
+					ct := 0
+					if c := s.ep[e].xp.calls.calls[SeqNumber(q)]; c != nil {
+						ct = int(c.ctype)
+					}
+					if ct == 1 || ct == 2 {
+						enc.bin(&body, realCompress(ct, codecEncode(int64(4242))))
+					} else {
+						enc.value(&body, int64(4242))
+					}
+					enc.intv(&fr, int64(body.Len()))
+					fr.Write(body.Bytes())
+					s.ep[e].conn.inject(fr.Bytes())
+				}
+			}
+		})
+		r.quiet()
+		for k, f := range s.late {
+			before := len(r.hist)
+			f()
+			if len(r.hist) > before {
+				// reported now, not again at the end
+				r.hist[len(r.hist)-1] = strings.Replace(r.hist[len(r.hist)-1], "late ", "lateo ", 1)
+				s.late[k] = func() {}
+			}
+		}
+	}
 	// observe once more, then tear down what is still open
 	r.spawn("teardown", func() {
 		for e := 0; e < 2; e++ {
@@ -721,7 +861,7 @@ func runSession(g *prng, p sessPlan, script []string) (hist []string, trace []st
 
 func init() {
 	verifModes["session"] = func(c *vctx) {
-		flavours := strings.Split(c.envOr("VERIF_FLAVOURS", "plain,close,limit,hostile,faultat,burst,slowpeer"), ",")
+		flavours := strings.Split(c.envOr("VERIF_FLAVOURS", "plain,close,limit,hostile,faultat,burst,slowpeer,wfail"), ",")
 		leaks := 0
 		var totalSteps int
 		var faBase *sessPlan
@@ -762,7 +902,7 @@ func init() {
 						leaks++
 					}
 				}
-				c.note("%s scen=%d steps=%d ops=%d closer=%s pct=%v force=%d inj=%d", fl, i, steps, len(plan.ops), plan.closer, plan.pct, plan.forceAt, len(plan.inject))
+				c.note("%s scen=%d steps=%d ops=%d closer=%s pct=%v force=%d inj=%d shared=%v lazyfin=%v", fl, i, steps, len(plan.ops), plan.closer, plan.pct, plan.forceAt, len(plan.inject), plan.shared, plan.lazyFin)
 				c.op("mon %d %s", plan.max, strings.Join(hist, " ; "))
 				c.res("ok")
 				if os.Getenv("VERIF_TLOG") != "" {
